@@ -138,7 +138,7 @@ def _run_case(spec):
         xs = [torch.randn((2,) + s) for s in in_shapes]
         net.eval()
         with torch.no_grad():
-            y0 = net(*xs)
+            y0 = pitgen.merge_out(net(*xs))
         net.train(train_mode)
         shapes_rec = pitgen.shapes_of(net, in_shapes)
         net.train(train_mode)
@@ -167,7 +167,7 @@ def _run_case(spec):
             # model's function as it stands, without another .eval()
             try:
                 with torch.no_grad():
-                    res['import_diff_as_returned'] = _allclose(y0, pit(*xs))
+                    res['import_diff_as_returned'] = _allclose(y0, pitgen.merge_out(pit(*xs)))
             except Exception:
                 pass
         changed = [k for k, v in net.state_dict().items() if k in state0 and not torch.equal(v, state0[k])]
@@ -178,7 +178,7 @@ def _run_case(spec):
         # ---------------------------------------------------------------- import (C07)
         try:
             with torch.no_grad():
-                y1 = pit(*xs)
+                y1 = pitgen.merge_out(pit(*xs))
         except Exception as ex:
             res['construct_error'] = 'first forward: %s: %s' % (type(ex).__name__, str(ex)[:160])
             return res
@@ -187,7 +187,7 @@ def _run_case(spec):
             with torch.no_grad():
                 e0 = pit.export().eval()
                 pitgen.copy_bn_stats(pit, e0)
-                res['export0_diff'] = _allclose(y0, e0(*xs))
+                res['export0_diff'] = _allclose(y0, pitgen.merge_out(e0(*xs)))
         except Exception as ex:
             res['construct_error'] = 'export() right after import: %s: %s' % (type(ex).__name__, str(ex)[:160])
             return res
@@ -271,10 +271,10 @@ def _run_case(spec):
             # oracle: eval vs export
             try:
                 with torch.no_grad():
-                    y2 = pit(*xs)
+                    y2 = pitgen.merge_out(pit(*xs))
                     e = pit.export().eval()
                     pitgen.copy_bn_stats(pit, e)
-                    y3 = e(*xs)
+                    y3 = pitgen.merge_out(e(*xs))
                 a['export_diff'] = _allclose(y2, y3)
                 a['out_shape_ok'] = tuple(y3.shape) == tuple(y0.shape)
             except Exception as ex:
